@@ -272,7 +272,12 @@ func hfProject(b []byte, texts map[string]hfTok) hfM {
 // way Word numbers them (header1.xml, header2.xml, ... / footer1.xml, ...), here in the order of kind
 // first, even, default. Part names, relationship targets and content-type overrides are renamed
 // consistently; nothing else changes.
-func hfWordNames(b []byte) ([]byte, error) {
+func hfWordNames(b []byte) ([]byte, error) { return hfWordNamesSpelt(b, "") }
+
+// hfWordNamesSpelt: as hfWordNames; the targets of the header/footer relationships are written relative ("header1.xml",
+// spelling ""), as absolute part names ("/word/header1.xml", spelling "abs") or with a leading dot segment
+// ("./header1.xml", spelling "dot") - three legal spellings of the same part.
+func hfWordNamesSpelt(b []byte, spelling string) ([]byte, error) {
 	p := ReadPkg(b)
 	if p.ZipErr != "" {
 		return nil, fmt.Errorf("zip: %s", p.ZipErr)
@@ -359,6 +364,17 @@ func hfWordNames(b []byte) ([]byte, error) {
 		switch name {
 		case relsName:
 			data = swap(data, `Target="`)
+			if spelling != "" {
+				t := string(data)
+				for _, nn := range ren {
+					pre := "./"
+					if spelling == "abs" {
+						pre = "/word/"
+					}
+					t = strings.ReplaceAll(t, `Target="`+nn+`"`, `Target="`+pre+nn+`"`)
+				}
+				data = []byte(t)
+			}
 		case "[Content_Types].xml":
 			data = swap(data, `PartName="/word/`)
 		}
